@@ -355,7 +355,7 @@ GRID = {
 
 def jobs(tier):
     q = tier == "quick"
-    T = 200 if q else 900
+    T = 400 if q else 900
     N = 4 if q else 6
     return [
         {"module": "c19", "fn": "h_any_iter", "part": {"N": N}, "timeout": T},
